@@ -870,6 +870,13 @@ func report(e *Engine, prop, tier string, seed int, t0 time.Time, ts []target, r
 		}
 	}
 	if rebaseline {
+		fns := map[string]*ssa.Function{}
+		for _, t := range ts {
+			if t.fn != nil {
+				fns[keyOfFunction(t.fn)] = t.fn
+			}
+		}
+		saveBaseNames(fns)
 		canon := map[string]bool{}
 		for _, n := range names {
 			if c := canonName(n); c != "" {
